@@ -41,6 +41,10 @@ RULE = (
     "at magnitudes 1 ... 1e10, the float64 side 0 - 0.45 resolution steps of "
     "the narrow dtype away from a representable value (estimates in "
     "neighbouring representable values).  "
+    "Memory layout: y_tau and y_test (and the candidate matrix of the "
+    "minimiser) are handed over C-ordered, Fortran-ordered, as transposed "
+    "view, as strided slice of a larger array or as reversed view; the "
+    "oracle uses the logical values.  "
     "Integer-typed input: pinball cases with int8 / int16 / int32 / int64 "
     "arrays (uint8 truth with float estimates), optionally scaled to the "
     "range of the dtype or mixed with float; mape-bias-int: int8 / int16 / "
@@ -213,8 +217,34 @@ def pinball_cases(draw, large=2000):
             ["list", "array", "row"] + (["scalar"] if k == 1 else []))),
         "y_tau": y_tau, "ytau_shape": ytau_shape, "dtype": dtype,
         "dtype_test": dtype_test, "dtype_tau": dtype_tau,
+        "layout_tau": draw(st.sampled_from(LAYOUTS)),
+        "layout_test": draw(st.sampled_from(LAYOUTS)),
         "kind": kind,
     }
+
+
+LAYOUTS = ["C", "C", "F", "T", "strided", "reversed"]
+
+
+def laid_out(a, layout):
+    """the same logical array in another memory layout: Fortran order,
+    transposed view of a C array, strided slice of a larger array, or a
+    reversed view (negative stride)"""
+    if layout == "F" and a.ndim == 2:
+        return np.asfortranarray(a)
+    if layout == "T" and a.ndim == 2:
+        return np.ascontiguousarray(a.T).T
+    if layout == "strided":
+        if a.ndim == 2:
+            big = np.zeros((2 * a.shape[0], 2 * a.shape[1] + 1), dtype=a.dtype)
+            big[::2, 1::2] = a
+            return big[::2, 1::2]
+        big = np.zeros(2 * a.shape[0] + 1, dtype=a.dtype)
+        big[1::2] = a
+        return big[1::2]
+    if layout == "reversed":
+        return np.ascontiguousarray(a[::-1])[::-1]
+    return np.ascontiguousarray(a)
 
 
 def build_pinball(case):
@@ -241,6 +271,11 @@ def build_pinball(case):
         yt_arg = yt.reshape(n, 1)
     else:
         yt_arg = yt
+    y_arg = laid_out(y_arg, case.get("layout_test", "C"))
+    yt_arg = laid_out(yt_arg, case.get("layout_tau", "C"))
+    if not (np.array_equal(np.asarray(y_arg).reshape(-1), y.reshape(-1))
+            and np.array_equal(np.asarray(yt_arg).reshape(yt.shape), yt)):
+        raise AssertionError("harness: layout changed the logical values")
     form = case["taus_form"]
     taus = case["taus"]
     if form == "scalar":
@@ -269,6 +304,10 @@ def check_pinball(case, ctx):
     ctx.label("kind-" + case["kind"], "ytau-" + case["ytau_shape"],
               "ytest-" + case["ytest_shape"], "taus-" + case["taus_form"],
               "dtype-" + case["dtype"])
+    lt, ls = case.get("layout_tau", "C"), case.get("layout_test", "C")
+    ctx.label("layout-ytau-" + lt, "layout-ytest-" + ls)
+    if k > 1 and case["ytau_shape"] == "2d" and lt in ("F", "T", "strided"):
+        ctx.label("ytau-(n,k>1)-not-C-contiguous")
     if case["dtype"] == "mixed-precision":
         narrow_side = ("estimates" if case["dtype_tau"] != "float"
                        else "observations")
@@ -343,7 +382,8 @@ def minimiser_cases(draw, large=300):
         # fractions j/n: the flat-minimum situation
         st.integers(1, max(1, n - 1)).map(lambda j: min(j / n, 0.999))),
         min_size=1, max_size=3))
-    return {"sample": y, "taus": taus, "kind": kind}
+    return {"sample": y, "taus": taus, "kind": kind,
+            "layout": draw(st.sampled_from(LAYOUTS))}
 
 
 def check_minimiser(case, ctx):
@@ -370,7 +410,9 @@ def check_minimiser(case, ctx):
     label_size(ctx, n)
     lt = np.searchsorted(ys, cand, side="left")     # #{y < c}
     le = np.searchsorted(ys, cand, side="right")    # #{y <= c}
-    y_tau = np.tile(np.array(cand, dtype=float), (n, 1))
+    y_tau = laid_out(np.tile(np.array(cand, dtype=float), (n, 1)),
+                     case.get("layout", "C"))
+    ctx.label("layout-candidates-" + case.get("layout", "C"))
     for tau in case["taus"]:
         if tau != 0.5:
             ctx.label("tau!=0.5")
@@ -485,6 +527,8 @@ def mape_cases(draw, large=2000):
         st.sampled_from([3.7, -2.5, 1e5, 1e-5])))
     return {"truth": t, "pred": pred, "mode": mode, "p": p, "perm": perm,
             "scale": scale, "kind": kind,
+            "layout_pred": draw(st.sampled_from(LAYOUTS)),
+            "layout_truth": draw(st.sampled_from(LAYOUTS)),
             "pred_shape": draw(st.sampled_from(["flat", "flat", "col"]))}
 
 
@@ -512,6 +556,12 @@ def check_mape(case, ctx):
     tol = float(LD(1e-12) * exp_m) + 1e-300
 
     pr_m = pr.reshape(n, 1) if case["pred_shape"] == "col" else pr
+    # memory layout of the arguments (logical values unchanged)
+    pr_m = laid_out(pr_m, case.get("layout_pred", "C"))
+    pr = laid_out(pr, case.get("layout_pred", "C"))
+    t = laid_out(t, case.get("layout_truth", "C"))
+    ctx.label("layout-pred-" + case.get("layout_pred", "C"),
+              "layout-truth-" + case.get("layout_truth", "C"))
     m = scores.mape(pr_m, t)
     b = scores.bias(pr, t)
     ctx.check(np.ndim(m) == 0 and np.ndim(b) == 0, "mape-bias/not-scalar",
